@@ -175,7 +175,7 @@ size_t varintRLEDecode(const uint8_t *src, uint64_t *values, size_t maxCount) {
 
         /* Write run values */
         size_t toWrite = runLen;
-        if (totalDecoded + toWrite > maxCount) {
+        if (toWrite > maxCount - totalDecoded) {
             toWrite = maxCount - totalDecoded;
         }
 
